@@ -1,15 +1,14 @@
 #!/bin/bash
-# Offline setup: warm the Go build cache under /verif/.cache and pre-build every harness.
+# Offline setup: warm the Go build cache under /verif/.cache and pre-build every registered harness.
 set -u
 V=${VERIF_DIR:-/verif}
 export GOFLAGS=-mod=mod GOPROXY=off GOSUMDB=off GOTOOLCHAIN=local
 export GOCACHE=$V/.cache/go-build
 mkdir -p "$V/.build/bin" "$V/.cache" "$V/evidence" "$V/replays"
-cd "$V/mc" || exit 1
-go build ./core ./fx || exit 1
-for d in props/*/; do
-  p=$(basename "$d")
-  if [ -f "$d/overlay.spec" ]; then continue; fi
-  go build -o "$V/.build/bin/$p" "./props/$p" || exit 1
-done
-echo "setup ok"
+cd "$V" || exit 1
+ids=$(jq -r '.checks[].property_id' MANIFEST.json | sort -u)
+fail=0
+# build in parallel (4 at a time): the first build compiles fiber+fasthttp, later ones reuse the cache
+printf '%s\n' $ids | head -1 | while read -r id; do VERIF_BUILD_ONLY=1 ./check "$id" quick || exit 1; done || fail=1
+printf '%s\n' $ids | tail -n +2 | xargs -r -P 4 -I{} env VERIF_BUILD_ONLY=1 ./check {} quick || fail=1
+[ $fail -eq 0 ] && echo "setup ok" || { echo "setup FAILED"; exit 1; }
